@@ -56,6 +56,10 @@ def definitions(tier: str, seed: int, want: dict[str, int]) -> list[dict]:
             ast, kind = gen.random_edge(rng, gen.EDGE_KINDS[(i // 2) % len(gen.EDGE_KINDS)])
         defs.append({"name": f"edge{i}", "kind": "edge", "ast": ast,
                      "tags": sorted(gen.tags_of(ast) | {"F_edge"})})
+    for i in range(want.get("same-end", 0)):
+        ast = gen.random_same_end(rng)
+        defs.append({"name": f"same{i}", "kind": "same-end", "ast": ast,
+                     "tags": sorted(gen.tags_of(ast) | {"beyond-F", "same-end"})})
     return defs
 
 
